@@ -69,7 +69,15 @@ func getDocumentTitle(root *html.Node, wc stringutil.WordCounter) string {
 	}
 
 	// If they had an element with tag "title" in their HTML
-	titleNode := dom.QuerySelector(root, "title")
+	// (an HTML one: the <title> of an inline SVG picture is its tooltip)
+	var titleNode *html.Node
+	for _, node := range dom.QuerySelectorAll(root, "title") {
+		if node.Namespace == "" {
+			titleNode = node
+			break
+		}
+	}
+
 	if titleNode != nil {
 		origTitle = domutil.InnerText(titleNode)
 		curTitle = origTitle
